@@ -116,7 +116,7 @@ type scenario struct {
 	Sched         []rstep `json:"sched"`
 	Ops           []op    `json:"ops"`
 	NoTrackLexeme bool    `json:"noTrackLexeme"`
-	Exp           []int   `json:"exp,omitempty"` // results the implementation-shaped model predicts, one per op (-1: none)
+	Exp           []int   `json:"exp,omitempty"`  // results the implementation-shaped model predicts, one per op (-1: none)
 	MemK          *int    `json:"memk,omitempty"` // Free discipline promised by this scenario (Stream.tla: memk); nil: none
 }
 
